@@ -878,6 +878,24 @@ def bmm(E, a, b, node=None):
     return matmul(E, a, b, node)
 
 
+def bitcast(E, t, dtype, node=None):
+    """Tensor.view(dtype) between dtypes of the same item size: the same bytes read as another type.  The bits are not computed:
+    the result is an uninterpreted tensor that remembers what it was cast from; casting back to the ORIGINAL dtype gives the original."""
+    size = lambda d: (sym.INT_DTYPES[d][0] if d in sym.INT_DTYPES else {"float16": 16, "bfloat16": 16, "float32": 32, "float64": 64, "bool": 8}.get(d, 8))
+    if size(t.dtype) != size(dtype.name):
+        raise Unsupported("view(dtype) between item sizes")
+    if dtype.name == t.dtype:
+        return t
+    src = t.attrs.get("bitcast_of")
+    if src is not None and src.dtype == dtype.name:
+        return src
+    from .tm_tensor import new_input
+    r = new_input(E, E.fresh_name(f"bits_{t.name}_as_{dtype.name}").replace("#", "_"), dtype.name, list(t.shape), device=t.device)
+    r.attrs["bitcast_of"] = t
+    r.fresh = True
+    return r
+
+
 def int_mm(E, a, b, node=None):
     """torch._int_mm (assumed specification): int8 x int8 -> int32 exact product sums."""
     if a.dtype != "int8" or b.dtype != "int8":
@@ -997,7 +1015,7 @@ ATEN.update({
     "as_strided": as_strided,
     "select": select, "slice": lambda E, t, dim=0, start=None, end=None, step=1: slice_dim(E, t, norm_dim(E, dim, len(t.shape)), start, end, step),
     "unsqueeze": unsqueeze, "squeeze": squeeze, "permute": permute, "transpose": transpose, "t": t_,
-    "expand": expand, "reshape": reshape, "view": lambda E, t, *s: reshape(E, t, *s, is_view=True),
+    "expand": expand, "reshape": reshape, "view": lambda E, t, *s: (bitcast(E, t, s[0]) if len(s) == 1 and isinstance(s[0], DType) else reshape(E, t, *s, is_view=True)),
     "_unsafe_view": lambda E, t, *s: reshape(E, t, *s), "flatten": flatten, "cat": cat, "stack": stack,
     "split": split, "chunk": chunk, "clone": clone, "detach": detach, "contiguous": contiguous, "_to_copy": _to_copy,
     "mul_": lambda E, t, v: inplace_binop(E, "Mult", t, None, v), "div_": lambda E, t, v: inplace_binop(E, "Div", t, None, v),
